@@ -73,5 +73,12 @@ def run(rep, tier):
     # no state kept across calls in the approximate machinery (a function-local static sized for the first graph breaks the next, larger one)
     from . import c07
     rep.rule('R07g', 'no mutable function-local static state in the approximate algorithms and the searches they call (shared with C07)', floor=0)
+    rep.rule('R07h', 'container sizes computed from num_edges / num_vertices in the approximate algorithms do not wrap for sparse disconnected graphs (a '
+             'length_error means no basis is returned at all)', floor=0)
+    rep.rule('R07q', 'an emitted cycle is not built on top of a moved-from list (each emitted list is one simple cycle whatever the output iterator does with it)', floor=0)
+    rep.rule('R07p', 'the returned weight is folded in the weight type (std::accumulate sums in the type of its initial value)', floor=0)
     for prog in env.extract([env.witness_tu()], 'full').values():
         c07.r07g(rep, prog, only_files=('approx_spanner', 'parmcb_approx', 'detail/bfs.hpp', 'detail/dijkstra.hpp'))
+        c07.r07h(rep, prog, only_files=('approx_spanner', 'parmcb_approx'))
+        c07.r07p(rep, prog, only_files=('approx_spanner', 'parmcb_approx'))
+        c07.r07q(rep, prog, only_files=('approx_spanner', 'parmcb_approx'))
